@@ -71,7 +71,7 @@ def hashOk (H : Bytes → Bytes) (o : Obj) : Bool :=
   | some (.obj m) =>
     match get m b!"sha256" with
     | some (.str s) =>
-      match Hash.base64BytesDecode s with
+      match B64.decode s with
       | some d => d == H (encodeCanon (.obj (o.filter (fun kv => ![b!"signatures", b!"unsigned", b!"hashes"].contains kv.1))))
       | none => false
     | _ => false
@@ -100,7 +100,7 @@ def untrustedExpect (H : Bytes → Bytes) (ver : Bytes) (t : Bytes) : Except Str
           else match redactJSON ver (.obj f) with
             | .ok (.obj r) =>
               let d := H (encodeCanon (.obj (r.filter (fun kv => !(kv.1 == b!"signatures" || kv.1 == b!"unsigned")))))
-              .ok (0x24 :: Hash.b64Encode (row.eventIDFormat == 3) d)
+              .ok (0x24 :: B64.encodeWith (if row.eventIDFormat == 3 then B64.urlAlphabet else B64.stdAlphabet) d)
             | _ => .error "redaction fails or is not modelled"
         match idv with
         | .error w => .error w
